@@ -4,11 +4,20 @@
    under the handle renaming, XML of both, parents, disjointness, mutation histories on either side afterwards).
    Proved for all inputs: what copy() keeps (the concrete kind of HOA pack formats included); that every copy is a
    fresh handle, so no element is shared; that the new document lists the copies of the members in the same order
-   and carries the version; that a failed copy leaves no trace.  Partial (suffix _partial): that the re-created
-   reference lists are the images of the original ones - copyAllElements re-links the copies through the public
-   addReference / setReference calls, whose effect on fresh elements is not yet proved in general - and independence
-   under later mutations are decided by the differential run. *)
-From Adm Require Import Heap.Exec Heap.More Heap.Frame Heap.Copy.
+   and carries the version; that a failed copy leaves no trace; and (Heap/CopyRefs.v) the complete specification of a
+   successful deepCopy from a well-formed, synchronised source whose objects keep referenced and complementary objects
+   apart - three invariants of every reached state (Heap/Joint.v): every field of every element that is not a copy is
+   as before; the new document lists the copies in the order of the originals with the version; every copy has all
+   fields of its original (concrete kind, ID, type, blocks, times, parameters) with the new document as parent; and
+   every reference list of every copy is the image of the original's list under the original -> copy map, in the same
+   order.  (For the track-UID list of an object the image is taken of the list as addReference replays it: silent
+   UIDs may repeat, a repeated non-silent UID is listed once; without such repetition it is the list itself.)
+   The copy is again well-formed, synchronised and disjoint, so the theorem applies to copies of copies.
+   Not proved here: independence under later mutations as a theorem about footprints per document (in the model
+   distinct handles are distinct objects, and the differential run mutates either side and compares the other);
+   that deepCopy never throws on such a source. *)
+From Adm Require Import Heap.Exec Heap.More gen.PlansGen Heap.PlanChecks Heap.Frame Heap.Copy Heap.WF Heap.Sync Heap.Remove
+  Heap.WFExt Heap.CopyRefs Heap.CopyInv Heap.Joint.
 
 Theorem C09_copy_keeps_everything_but_links : forall e,
   ekind (copy_of e) = ekind e /\ ehoa (copy_of e) = ehoa e /\ eid (copy_of e) = eid e /\ etd (copy_of e) = etd e /\
@@ -49,3 +58,70 @@ Print Assumptions C09_new_document_lists_the_copies.
 Theorem C09_failed_copy_leaves_no_trace : forall P d dnew base s s' e, deep_copy P d dnew base s = (s', inr e) -> s' = s.
 Proof. exact deep_copy_failure_changes_nothing. Qed.
 Print Assumptions C09_failed_copy_leaves_no_trace.
+
+(* ---------- the complete specification of a successful deepCopy ---------- *)
+Theorem C09_deep_copy_specification : forall d dnew base s s' u, deep_copy gen_plans d dnew base s = (s', inl u) ->
+  WF s -> Sync s -> ObjDisjoint s ->
+  get_doc s dnew = None /\
+  exists x mp, get_doc s d = Some x /\ mp = number_from base (flat_map (fun k => members x k) kind_order) /\
+    NoDup (map snd mp) /\ NoDup (map fst mp) /\ (forall c, Copy mp c -> get_elem s c = None) /\
+    (forall h, Orig mp h <-> exists k, In h (members x k)) /\
+    (forall y, ~ Copy mp y -> nr s' y = nr s y /\ forall rk, refs s' y rk = refs s y rk) /\
+    (forall d', d' <> dnew -> get_doc s' d' = get_doc s d') /\
+    get_doc s' dnew = Some (mkDoc (fun k => map (mpf mp) (members x k)) (dversion x)) /\
+    (forall h, Orig mp h -> exists e, get_elem s h = Some e /\
+       nr s' (mpf mp h) = Some (norefs (set_parent (copy_of e) (Some dnew))) /\
+       forall rk, refs s' (mpf mp h) rk = map (mpf mp) (obs s h rk)).
+Proof. exact (deep_copy_spec gen_plans). Qed.
+Print Assumptions C09_deep_copy_specification.
+
+(* the vocabulary of that statement *)
+Theorem C09_vocabulary : (forall s y, nr s y = option_map norefs (get_elem s y)) /\
+  (forall e, norefs e = (ekind e, eparent e, eid e, etd e, eblocks e, ehoa e, estart e, eend e, eparams e, etag e)) /\
+  (forall mp h, mpf mp h = match assoc_pos h mp with Some c => c | None => h end) /\
+  (forall s h rk, rk <> ObjUid -> obs s h rk = refs s h rk) /\
+  (forall s h, NoDup (refs s h ObjUid) -> obs s h ObjUid = refs s h ObjUid) /\
+  (forall s h rk r, In r (obs s h rk) -> In r (refs s h rk)).
+Proof. exact (conj (fun _ _ => eq_refl) (conj (fun _ => eq_refl) (conj (fun _ _ => eq_refl) (conj obs_plain (conj obs_uid_nodup obs_incl))))). Qed.
+Print Assumptions C09_vocabulary.
+
+(* the hypotheses hold in every reached state, and again after the copy *)
+Theorem C09_hypotheses_hold_in_reached_states : forall ops s, xrun_succ gen_plans ops empty_state = Some s ->
+  WF s /\ Sync s /\ ObjDisjoint s.
+Proof. exact (fun ops s H => joint_invariant gen_plans gen_add_plan_complete gen_remove_plan_complete gen_plans_typed eq_refl ops empty_state s empty_G H). Qed.
+Print Assumptions C09_hypotheses_hold_in_reached_states.
+
+Theorem C09_copy_is_again_a_valid_source : forall d dnew base s s' u, deep_copy gen_plans d dnew base s = (s', inl u) ->
+  WF s -> Sync s -> ObjDisjoint s -> WF s' /\ Sync s' /\ ObjDisjoint s'.
+Proof. exact (deep_copy_inv gen_plans). Qed.
+Print Assumptions C09_copy_is_again_a_valid_source.
+
+(* the same for copyAllElements alone (deepCopyTo = copyAllElements, then Document::add of every copy) *)
+Theorem C09_copy_all_specification : forall d base s s2 mp, copy_all gen_plans d base s = (s2, inl mp) ->
+  WF s -> Sync s -> ObjDisjoint s ->
+  exists x, get_doc s d = Some x /\ mp = number_from base (flat_map (fun k => members x k) kind_order) /\
+    NoDup (map snd mp) /\ NoDup (map fst mp) /\ (forall c, Copy mp c -> get_elem s c = None) /\
+    (forall h, Orig mp h <-> exists k, In h (members x k)) /\
+    (forall y, ~ Copy mp y -> nr s2 y = nr s y /\ forall rk, refs s2 y rk = refs s y rk) /\
+    (forall d', get_doc s2 d' = get_doc s d') /\
+    (forall h, Orig mp h -> exists e, get_elem s h = Some e /\ nr s2 (mpf mp h) = Some (norefs (copy_of e)) /\
+                              forall rk, refs s2 (mpf mp h) rk = map (mpf mp) (obs s h rk)).
+Proof. exact (copy_all_spec gen_plans). Qed.
+Print Assumptions C09_copy_all_specification.
+
+(* a document with nested objects, a complementary object, a stream/track pair and a silent track UID used twice *)
+Example C09_deep_copy_example :
+  match xrun_succ gen_plans
+          (map XBase [ONewDoc 1; ONew 2 KObj 0 false; ONew 3 KObj 0 false; ONew 4 KObj 0 false; ONew 5 KStream 0 false;
+                      ONew 6 KTrack 0 false; ONew 7 KUid 0 false; OSetId 7 (mkId 0 0 0);
+                      OAddRef ObjObj 2 3; OAddRef ObjCompl 2 4; OAddRef ObjUid 2 7; OAddRef ObjUid 2 7;
+                      OAddRef StreamTrack 5 6; OAdd 1 2; OAdd 1 5]
+           ++ [XDeepCopy 1 9 20]) empty_state with
+  | Some s => (map (fun k => listed s 9 k) [KObj; KStream; KTrack; KUid],
+               refs s 20 ObjObj, refs s 20 ObjCompl, refs s 20 ObjUid, refs s 23 StreamTrack, refs s 24 TrackStream,
+               map (parent s) [20; 21; 22; 23; 24; 25; 2]%positive)
+              = ([[20; 21; 22]; [23]; [24]; [25]]%positive, [21%positive], [22%positive], [25; 25]%positive,
+                 [24%positive], [23%positive], [Some 9; Some 9; Some 9; Some 9; Some 9; Some 9; Some 1]%positive)
+  | None => False
+  end.
+Proof. vm_compute. reflexivity. Qed.
